@@ -85,6 +85,21 @@ def judge(run, site, case, f, in_dims, out_dims, args, fp):
         run.oracle_ok(site)
 
 
+_TC = []
+
+
+def _tensorclass():
+    if not _TC:
+        from tensordict import tensorclass
+
+        @tensorclass
+        class C19Tc:
+            a: torch.Tensor
+            b: torch.Tensor
+        _TC.append(C19Tc)
+    return _TC[0]
+
+
 def run_all(run):
     from tensordict import LazyStackedTensorDict, TensorDict
     rng = run.rng
@@ -297,6 +312,76 @@ def run_all(run):
         f = lambda t, ops=tuple(ops): C18.run_program(t, ops)
         judge(run, "ext.c18_programs", {"shape": list(shape), "ops": ops, "in_dim": i, "out_dim": o}, f, i, o, (td,), "c18|" + ",".join(ops))
 
+    # ---- (h) inputs whose nested tensordict has MORE batch dims than its parent, in-place writes inside the function,
+    #          a function that writes into its in_dims=None argument (must not leak into the caller's object), tensorclass inputs
+    def deep(bb, locked=False):
+        t = G.make_td(bb)
+        t["n"] = TensorDict({"x": t["n", "x"]}, batch_size=[*bb, 1])
+        return t.lock_() if locked else t
+    tc_cls = _tensorclass()
+    for _ in range(n // 2):
+        b = rng.choice(BATCHES)
+        r = len(b)
+        i = rng.randrange(-r, r)
+        ro = r - 1
+        o = rng.randrange(-(ro + 1), ro + 1)
+        form = rng.choice(["deep_input", "inplace_in_f", "none_arg_written", "tensorclass"])
+        if form == "deep_input":
+            f = lambda t: t.apply(lambda x: x * 2)
+            judge(run, "ext.inputs", {"form": form, "batch": list(b), "in_dim": i, "out_dim": o}, f, i, o, (deep(b, locked=rng.random() < 0.3),), "deep_input")
+        elif form == "inplace_in_f":
+            a1, a2 = G.make_td(b, dtype=torch.float32), G.make_td(b, dtype=torch.float32)
+            f = lambda t: t.apply_(lambda x: x + 1)
+            try:
+                with time_limit(30):
+                    got = torch.vmap(f, in_dims=i, out_dims=o)(a1)
+                    ref = _stack([f(sl) for sl in a2.unbind(i % r)], o)
+                ok = same(got, ref) and same(a1, a2)
+            except TimeoutError:
+                raise
+            except Exception:
+                ok = None
+            run.case(("ext.inputs", form, str(b), i, o), nontrivial=ok is not None)
+            if ok is False:
+                run.oracle_fail("ext.inputs", {"form": form, "batch": list(b), "in_dim": i, "out_dim": o}, "in-place write inside the vmapped function: result or input differs from the per-sample loop", fingerprint="inplace_in_f")
+            else:
+                run.oracle_ok("ext.inputs")
+        elif form == "none_arg_written":
+            inner = tuple(b[:i % r] + b[i % r + 1:])
+            u = G.make_td(inner)
+            ukeys = sorted(map(str, u.keys(True, True)))
+            g_ = lambda t, uu: (uu.set("w", uu["b"] + 1), t.apply(lambda x, y: x + y, uu.exclude("w")))[1]
+            try:
+                with time_limit(30):
+                    torch.vmap(g_, in_dims=(i, None), out_dims=o)(G.make_td(b), u)      # vmap alone: does the write reach the caller's object?
+            except TimeoutError:
+                raise
+            except Exception:
+                pass
+            leaked = sorted(map(str, u.keys(True, True))) != ukeys
+            g2 = lambda t, uu: g_(t, uu.clone(False))       # values: vmap vs loop (the loop must not write into the shared argument either)
+            judge(run, "ext.inputs", {"form": form, "batch": list(b), "in_dim": i, "out_dim": o}, g2, (i, None), o, (G.make_td(b), G.make_td(inner)), "none_arg_written")
+            if leaked:
+                run.oracle_fail("ext.inputs", {"form": form, "batch": list(b), "in_dim": i}, "a write to the in_dims=None argument inside the vmapped function leaked into the caller's tensordict", fingerprint="none_arg_leak")
+        else:
+            base = G.make_td(b, dtype=torch.float32)
+            tc = tc_cls(a=base["a"], b=base["b"], batch_size=list(b))
+            f = lambda t: t.apply(lambda x: x * 2)
+            try:
+                with time_limit(30):
+                    got = torch.vmap(f, in_dims=i, out_dims=o)(tc)
+                    ref = _stack([f(sl) for sl in tc.unbind(i % r)], o)
+                ok = type(got) is type(ref) and got.batch_size == ref.batch_size and torch.equal(got.a, ref.a) and torch.equal(got.b, ref.b)
+            except TimeoutError:
+                raise
+            except Exception:
+                ok = None
+            run.case(("ext.inputs", form, str(b), i, o), nontrivial=ok is not None)
+            run.count("ext.inputs.tensorclass", str(ok))
+            if ok is False:
+                run.oracle_fail("ext.inputs", {"form": form, "batch": list(b), "in_dim": i, "out_dim": o}, "tensorclass input: vmap differs from the per-sample loop", fingerprint="tensorclass")
+            else:
+                run.oracle_ok("ext.inputs")
     # ---- (g) arithmetic on the tensordict itself inside the vmapped function (torch._foreach_* fast paths)
     for name, f in {"mul": lambda t: t * 2, "add": lambda t: t + 1, "neg": lambda t: -t, "abs": lambda t: t.abs(), "add_td": lambda t: t + t,
                     "iadd": lambda t: t.clone().add_(1), "clamp_min": lambda t: t.clamp_min(3), "clamp_max": lambda t: t.clamp_max(3)}.items():
